@@ -6,7 +6,9 @@ Widened histories (Sched/Retick.v, theorems C01_retick_* / C01_self_nudge): the 
 ticks (`timeline.ticks_per_beat = N`, once or twice, on and off the new grid), and events nudge their own track
 re-entrantly (from their action, from a track event callback, from Timeline.on_event_callback); driver
 harness/impl/c01_impl.py, model = run_segs over one configuration per segment, oracle = exact simulation of
-"first tick at or after start + exact sum" over the exact cumulative times of the ticks."""
+"first tick at or after start + exact sum" over the exact cumulative times of the ticks.  Faults (Sched/ClockStepProofs.v,
+C01_survivors_advance / C01_clocks_in_step): device calls / patterns / callbacks that raise, tolerant or not, on 1-3 tracks;
+every surviving track's onsets and clock are judged."""
 from common import *
 import sched_common as S
 import sched_gen as G
@@ -16,16 +18,34 @@ from math import ceil, gcd
 PROP = "C01"
 META = {
  "engine": "S-scheduler",
- "text": "Coq theorems (Props/C01.v) about the executable model of Track.tick/Timeline.tick (Sched/Model.v), for ALL tick lengths, all event streams with durations >= 1 tick (on or off the tick grid, finite or cyclic) and ALL run lengths (induction over the number of ticks, no bound): event k is performed exactly once, on the first tick at or after start + exact sum of the preceding durations; each onset depends only on that sum (no compounding of rounding); a nudge by x shifts every later onset to the first tick at or after the shifted time; Timeline/Track time after n ticks is n ticks. The model is tied to /repo on every run by a correspondence check: random histories at 9 resolutions incl. off-grid durations (0.1, 1/3, 5/7 ...), quantized/delayed starts, nudges, and runs of 1.2*10^6 ticks (quick) are executed on the real Timeline with a recording OutputDevice and inside Coq (vm_compute) on the model and compared call by call and tick by tick; an independent exact-fraction oracle judges every implementation trace. Widened (Sched/Retick.v, RetickProofs.v; theorems C01_retick_onsets, C01_retick_two_segments, C01_self_nudge, C01_retick_timeline_time, about Timeline.tick itself on a single-track timeline): the tick length may change before EVERY tick (any schedule of resolutions) - tick times are the exact cumulative sums of the tick lengths, for the track and for the timeline - and every event may nudge its own track re-entrantly from inside its own performance: event k is performed on tick j iff tick j is the first tick at or after start + exact sum of the preceding durations and self-nudges. Correspondence strata: histories with one or two `timeline.ticks_per_beat = N` assignments between ticks (before/after scheduling, on and off the new grid, with API reads in between) and tracks whose events nudge their own track from an action / a track event callback / Timeline.on_event_callback, run on the real Timeline (harness/impl/c01_impl.py) and on the model (run_segs, one configuration per segment).",
+ "text": "Coq theorems (Props/C01.v) about the executable model of Track.tick/Timeline.tick (Sched/Model.v), for ALL tick lengths, all event streams with durations >= 1 tick (on or off the tick grid, finite or cyclic) and ALL run lengths (induction over the number of ticks, no bound): event k is performed exactly once, on the first tick at or after start + exact sum of the preceding durations; each onset depends only on that sum (no compounding of rounding); a nudge by x shifts every later onset to the first tick at or after the shifted time; Timeline/Track time after n ticks is n ticks. The model is tied to /repo on every run by a correspondence check: random histories at 9 resolutions incl. off-grid durations (0.1, 1/3, 5/7 ...), quantized/delayed starts, nudges, and runs of 1.2*10^6 ticks (quick) are executed on the real Timeline with a recording OutputDevice and inside Coq (vm_compute) on the model and compared call by call and tick by tick; an independent exact-fraction oracle judges every implementation trace. Widened (Sched/Retick.v, RetickProofs.v; theorems C01_retick_onsets, C01_retick_two_segments, C01_self_nudge, C01_retick_timeline_time, about Timeline.tick itself on a single-track timeline): the tick length may change before EVERY tick (any schedule of resolutions) - tick times are the exact cumulative sums of the tick lengths, for the track and for the timeline - and every event may nudge its own track re-entrantly from inside its own performance: event k is performed on tick j iff tick j is the first tick at or after start + exact sum of the preceding durations and self-nudges. Correspondence strata: histories with one or two `timeline.ticks_per_beat = N` assignments between ticks (before/after scheduling, on and off the new grid, with API reads in between) and tracks whose events nudge their own track from an action / a track event callback / Timeline.on_event_callback, run on the real Timeline (harness/impl/c01_impl.py) and on the model (run_segs, one configuration per segment). Ticks cut short by an exception (Sched/ClockStepProofs.v; theorems C01_survivors_advance, C01_clocks_in_step, for EVERY reachable state and every history, any number of tracks, callbacks, faults in tolerant or intolerant mode): after a completed Timeline.tick every started track that is still scheduled has had its clock advanced by exactly one tick, hence Track.current_time = Timeline.current_time - start for every surviving track; stratum: 1-3 tracks (notes, controls, program changes, actions, some raising), the n-th device call raises (OSError family or another class; a second fault later), or a pattern raises, tolerant and intolerant; the oracle judges the onsets of every track and the clocks of the survivors. Resolutions that are multiples of 512 (512 ... 3584: the tick grid sits on decimal ties of round(., 8)) with one-tick and mixed durations (0.2, 1/512, 0.1) are part of the ordinary strata.",
  "note": "Trusted: Coq kernel+VM; the Python harness. Modelled, not verified: IEEE-754 rounding inside isobar (the model computes in exact integer units; round(x, 8) comparisons are exact on grids below 10^8 units per beat, Base/Round8.v) - agreement of the float implementation with the exact model is validated by the correspondence runs, including > 10^6-tick runs, not proved.",
 }
 
 
-def gen_basic(rng, tier):
-    tpb = rng.choice(G.TPBS)
+# resolutions that are multiples of 512: every odd multiple of 1/512 beat (0.001953125) is a decimal tie of round(., 8), so the
+# tick grid itself sits on the ties; with per-operand rounding in the due tests (before repair 9bb39e5) events there were
+# performed a tick late or skipped (512 PPQN, durations 0.2, 1/512, 0.1: 16th event on tick 774 instead of 773)
+TPBS_TIE = [512, 1024, 1536, 2560, 3584]
+
+
+def durations_tie(rng, tpb, n):
+    tick = F(1, tpb)
+    pool = [tick, tick, 2 * tick, 3 * tick, 5 * tick, F(1, 512), F(3, 512), F(1, 5), F(1, 10), F(1, 10), F(1, 5), F(1, 3), F(3, 10), F(1, 4)]
+    r = rng.random()
+    if r < 0.2:
+        return [tick] * n                                   # one event per tick
+    if r < 0.35:
+        return [F(1, 5), F(1, 512), F(1, 10)]
+    return [rng.choice(pool) for _ in range(n)]
+
+
+def gen_basic(rng, tier, tie=False):
+    tpb = rng.choice(TPBS_TIE if tie else G.TPBS)
     tick = F(1, tpb)
     ncyc = rng.randint(1, 6)
-    durs = G.durations_for(rng, tpb, ncyc)
+    durs = durations_tie(rng, tpb, ncyc) if tie else G.durations_for(rng, tpb, ncyc)
+    ncyc = len(durs)
     cyclic = rng.random() < 0.6
     items = [{"k": "note", "dur": d, "note": 40 + i, "amp": 64, "gate": [1, rng.choice([2, 4, 8])], "chan": 0} for i, d in enumerate(durs)]
     k0 = rng.choice([0, 0, 1, 3, tpb, 2 * tpb + 1, rng.randint(0, 4 * tpb)])
@@ -33,7 +53,7 @@ def gen_basic(rng, tier):
     d = rng.choice([None, None, F(0)] + G.QD_POOL)
     budget = 2000 if tier == "quick" else 6000
     total = sum(durs)
-    n_events_target = rng.randint(3, 40)
+    n_events_target = rng.randint(16, 60) if tie else rng.randint(3, 40)
     n1 = min(budget, int(ceil(total / ncyc * n_events_target / tick)) + 3 + int(ceil(((q or 0) + (d or 0)) / tick)))
     ops = []
     if k0:
@@ -153,7 +173,7 @@ def oracle(sc, r):
 
 # ---- widened histories: the resolution is re-configured during the run; events nudge their own track -------------------------
 HEADER_W = S.HEADER + "From Isobar Require Import Sched.Retick.\n"
-TPBS_W = [1, 7, 10, 24, 48, 96, 100, 480, 960, 1920]
+TPBS_W = [1, 7, 10, 24, 48, 96, 100, 480, 512, 960, 1920, 2560]
 SEG_CAP = 1000         # ticks per segment
 
 
@@ -547,23 +567,28 @@ def coq_op_w(o):
 
 
 def coq_segments(fsc):
-    """one (configuration, history) pair per stretch of operations between two re-configurations"""
+    """one (configuration, history) pair per stretch of operations between two re-configurations (of the resolution, or of
+    the device-call index at which the scripted device fault strikes)"""
     sn = fsc.get("self_nudge")
-    segs, tpb, cur = [], fsc["tpb"], []
+    segs, tpb, fail, cur = [], fsc["tpb"], fsc["config"].get("dev_fail"), []
     created = 0
     for o in fsc["ops"]:
         if o[0] == "probe":
             continue
         if o[0] == "set_tpb":
-            segs.append((tpb, cur)); tpb, cur = o[1], []
+            segs.append((tpb, fail, cur)); tpb, cur = o[1], []
+            continue
+        if o[0] == "set_fail":
+            segs.append((tpb, fail, cur)); fail, cur = o[1], []
             continue
         if o[0] == "schedule":
             if sn and created == sn["track"]:
                 o = [o[0], eff_stream(o[1], sn["by_pos"])] + list(o[2:])
             created += 1
         cur.append("hop (%s) %s" % (coq_op_w(o), zlit(o[1] if o[0] == "tick" else 1)))
-    segs.append((tpb, cur))
-    return lst(["seg %s %s" % (S.coq_config(dict(fsc, tpb=t)), lst(h)) for t, h in segs if h or len(segs) == 1])
+    segs.append((tpb, fail, cur))
+    return lst(["seg %s %s" % (S.coq_config(dict(fsc, tpb=t, config=dict(fsc["config"], dev_fail=f))), lst(h))
+                for t, f, h in segs if h or len(segs) == 1])
 
 
 def agrees_term_w(fsc, obs):
@@ -591,8 +616,9 @@ def python_snippet_w(fsc):
 
 def check_widened(run):
     rng = run.rng
-    n_each = 170 if run.tier == "quick" else 2500
-    scs = [gen_retick(rng, run.tier) for _ in range(n_each)] + [gen_selfnudge(rng, run.tier) for _ in range(n_each)]
+    n_each = 140 if run.tier == "quick" else 2500
+    scs = ([gen_retick(rng, run.tier) for _ in range(n_each)] + [gen_selfnudge(rng, run.tier) for _ in range(n_each)]
+           + [gen_fault(rng, run.tier) for _ in range(n_each)])
     fin = [G.finalize(strip(sc)) for sc in scs]
     results = run_impl_w(run, fin)
     skip = set()
@@ -602,7 +628,7 @@ def check_widened(run):
         run.dist("kind." + m["kind"])
         for t in m["tpbs"]:
             run.dist("tpb.%d" % t)
-        if len(m["tpbs"]) > 1:
+        if len(m["tpbs"]) > 1 and m["kind"] != "fault":
             run.dist("retick.%s" % ("on-new-grid" if m["aligned"] else "off-new-grid"))
             run.dist("retick.changes.%d" % (len(m["tpbs"]) - 1))
             run.dist("retick.%s" % ("finer" if m["tpbs"][1] > m["tpbs"][0] else "coarser"))
@@ -613,10 +639,36 @@ def check_widened(run):
             if any(x.startswith("-") for x in m["self_nudges"]): run.dist("self-nudge.negative")
             if m["main"] == 1: run.dist("self-nudge.second-track")
         if m.get("nudge"): run.dist("nudge")
-        if any(F(x).denominator != 1 for t in m["tpbs"] for x in [F(d) * t for d in m["durs"]]): run.dist("off-grid-durations")
+        if "durs" in m and any(F(x).denominator != 1 for t in m["tpbs"] for x in [F(d) * t for d in m["durs"]]): run.dist("off-grid-durations")
         if "driver_error" in r:
             run.violation({"kind": "driver-error", "site": "Timeline"}, {"scenario": fsc, "observed": r}, found_input=True)
             skip.add(i); continue
+        if m["kind"] == "fault":
+            run.dist("fault.%s" % ("tolerant" if m["tolerant"] else "intolerant"))
+            run.dist("fault.exception.%s" % ("OSError-family" if m["exception"] in FAULT_EXC[:4] else "other"))
+            run.dist("fault.tracks.%d" % m["tracks"])
+            if m["dev_fail"] is not None and m["faults_at_ticks"]: run.dist("fault.device")
+            if m["second_fault"] is not None: run.dist("fault.second-device-fault")
+            if m["pattern_fault"]: run.dist("fault.pattern")
+            if m["callbacks_raising"]: run.dist("fault.callback-raises")
+            if m["removed_tracks"] and len(m["removed_tracks"]) < m["tracks"]: run.dist("fault.neighbour-survives")
+            ok, detail = oracle_f(sc, r)
+            run.cov["oracle_evaluations"] += 1
+            if sum(len(v) for v in observed_f(sc, r).values()) >= 2:
+                run.nontrivial(json.dumps(fsc, sort_keys=True))
+            if not ok:
+                skip.add(i)
+                kind = "clock-after-fault" if "current_time" in detail else "onset-after-fault"
+                run.violation({"kind": kind, "site": "Timeline.tick/Track.tick"}, {
+                    "scenario": fsc, "meta": m, "observed": detail,
+                    "oracle": "every scheduled track performs its k-th event on the first tick at or after its start + exact sum of the preceding "
+                              "durations, and its clock reads Timeline.current_time - start, whatever exception cut a tick short",
+                    "expected_head": {ti: e[:10] for ti, e in sc["_sim"]["exp"].items()},
+                    "observed_head": {ti: e[:10] for ti, e in observed_f(sc, r).items()}, "times": r["times"][-1], "final_ids": r["final_ids"],
+                    "python": python_snippet_w(fsc)})
+            if i % 97 == 0:
+                run.sample({"meta": m, "first_observations": r["obs"][:5]}, limit=8)
+            continue
         ok, detail, known = oracle_w(sc, r)
         run.cov["oracle_evaluations"] += 1
         if len(observed_w(sc, r)) >= 2:
@@ -665,14 +717,259 @@ def check_widened(run):
     return len(fin) - len(bad) - len(skip)
 
 
+# ---- histories with faults: a tick of a track that is cut short by an exception -------------------------------------------
+FAULT_EXC = ["ConnectionRefusedError", "OSError", "BrokenPipeError", "TimeoutError", "RuntimeError", "ValueError", "KeyError"]
+
+
+def split_ticks_at(ops, tick_index, new_op):
+    """insert new_op before the tick with the given absolute index (ticks counted over the whole history)"""
+    out, seen, done = [], 0, False
+    for o in ops:
+        if o[0] == "tick" and not done and seen <= tick_index < seen + o[1]:
+            a = tick_index - seen
+            if a:
+                out.append(["tick", a])
+            out.append(new_op)
+            out.append(["tick", o[1] - a])
+            done = True
+        else:
+            out.append(o)
+        if o[0] == "tick":
+            seen += o[1]
+    if not done:
+        out.append(new_op)
+    return out
+
+
+def simulate_f(f, keep=()):
+    """The property for several tracks with faults, exact fractions.  Every track that is scheduled performs its k-th event on the
+    first tick at or after its start + exact sum of the preceding durations - whatever happened to other tracks, and whatever
+    exception cut one of ITS OWN ticks short, as long as it stays scheduled.  Whether a track whose tick raised in tolerant mode
+    is removed is not C01's business (C17 says it is): keep[n] says whether the track hit by the n-th fault stays scheduled (the
+    failed event is dropped, the stream goes on) or is removed (the default); the oracle accepts any such world as a whole.  In intolerant
+    mode the exception leaves Timeline.tick and nothing after that tick is judged."""
+    tick, T = F(1, f["tpb"]), F(0)
+    tickno = idx = 0
+    trs, calls, fail = [], 0, f["fail"]
+    exp, tick_of_idx, cum_calls, fault_ticks, raised_at = {}, {}, [], [], None
+    for o in f["ops"]:
+        kind = o[0]
+        if kind == "tick":
+            for _ in range(o[1]):
+                if raised_at is None:
+                    for tr in trs:
+                        if not tr["alive"] or tr["due"] > T:
+                            continue
+                        items = tr["items"]
+                        if tr["pos"] >= len(items):
+                            if tr["cyclic"]:
+                                tr["pos"] = 0
+                            else:
+                                tr["alive"] = False; tr["ended"] = True
+                                continue
+                        it = items[tr["pos"]]
+                        tr["pos"] += 1
+                        if it["k"] == "raise_eval":
+                            kept = len(fault_ticks) < len(keep) and keep[len(fault_ticks)]
+                            fault_ticks.append(tickno)
+                            if f["tolerant"]:
+                                tr["alive"] = kept          # kept: next_event_time was not advanced, the next item is due at once
+                                tr["faulted"] = True
+                                continue
+                            raised_at = tickno
+                            break
+                        if it["k"] == "action":
+                            exp[tr["i"]].append((tickno, ["cb", it["cb"]]))
+                        else:
+                            delivered = calls != fail
+                            calls += 1
+                            if not delivered:
+                                kept = len(fault_ticks) < len(keep) and keep[len(fault_ticks)]
+                                fault_ticks.append(tickno)
+                                if f["tolerant"]:
+                                    tr["faulted"] = True
+                                    if not kept:
+                                        tr["alive"] = False
+                                        continue
+                                else:
+                                    raised_at = tickno
+                                    break
+                            if delivered:
+                                lab = (["on", it["note"]] if it["k"] == "note" else ["ctl", it["ctl"], it["val"]] if it["k"] == "control"
+                                       else ["pgm", it["prog"]])
+                                exp[tr["i"]].append((tickno, lab))
+                        tr["due"] += it["dur"]
+                    if raised_at is None:
+                        T += tick
+                tick_of_idx[idx] = tickno
+                cum_calls.append(calls)
+                tickno += 1
+                idx += 1
+        elif kind == "set_fail":
+            fail = o[1]
+        else:
+            if kind == "schedule":
+                i = len(trs)
+                trs.append({"i": i, "items": f["streams"][i]["items"], "cyclic": f["streams"][i]["cyclic"], "pos": 0, "due": T,
+                            "start": T, "alive": True, "ended": False, "faulted": False})
+                exp[i] = []
+            idx += 1
+    return {"exp": exp, "tick_of_idx": tick_of_idx, "cum_calls": cum_calls, "fault_ticks": fault_ticks, "raised_at": raised_at, "T": T,
+            "clock": {tr["i"]: T - tr["start"] for tr in trs if tr["alive"] and tr["cyclic"]}, "total_calls": calls,
+            "dead": [tr["i"] for tr in trs if not tr["alive"] and not tr["ended"]], "faulted": [tr["i"] for tr in trs if tr["faulted"]]}
+
+
+def gen_fault(rng, tier):
+    """1-3 tracks of notes / controls / program changes / actions (some raising); the n-th device call raises (an OSError or another
+    exception), possibly a second one later, or a pattern raises; tolerant (ignore_exceptions) or not"""
+    for _attempt in range(200):
+        tpb = rng.choice(G.TPBS + [512])
+        ntr = rng.randint(1, 3)
+        tolerant = rng.random() < 0.7
+        callbacks, streams = [], []
+        for ti in range(ntr):
+            ncyc = rng.randint(1, 4)
+            durs = G.durations_for(rng, tpb, ncyc)
+            items = []
+            for i, dd in enumerate(durs):
+                r = rng.random()
+                if r < 0.68:
+                    items.append({"k": "note", "dur": dd, "note": 20 + 20 * ti + i, "amp": 64, "gate": [1, rng.choice([2, 4])], "chan": ti})
+                elif r < 0.79:
+                    items.append({"k": "control", "dur": dd, "ctl": 10 + i, "val": 10 * ti + i, "prog": 0, "chan": ti})
+                elif r < 0.88:
+                    items.append({"k": "program", "dur": dd, "ctl": 0, "val": 0, "prog": 10 * ti + i, "chan": ti})
+                else:
+                    items.append({"k": "action", "cb": len(callbacks), "dur": dd})
+                    callbacks.append({"raise": "exc" if rng.random() < 0.7 else "none", "ops": []})
+            cyclic = rng.random() < 0.75
+            if not cyclic:
+                items = items * rng.randint(2, 8)
+            streams.append({"items": items, "cyclic": cyclic})
+        pattern_fault = rng.random() < 0.15
+        if pattern_fault:
+            st = rng.choice(streams)
+            st["items"] = list(st["items"])
+            st["items"].insert(rng.randint(1, len(st["items"])), {"k": "raise_eval"})
+            if st["cyclic"] and rng.random() < 0.5:
+                st["cyclic"] = False
+        avg = sum(sum(i.get("dur", 0) for i in st["items"]) / len(st["items"]) for st in streams) / ntr
+        ops = []
+        k0 = rng.choice([0, 0, 1, 3, rng.randint(0, 2 * min(tpb, 100))])
+        if k0:
+            ops.append(["tick", k0])
+        order = list(range(ntr))
+        for j, ti in enumerate(order):
+            form = "scripted" if any(i["k"] == "raise_eval" for i in streams[ti]["items"]) else rng.choice(["scripted", "psequence", "pdict"])
+            ops.append(G.sched_op(G.stream(streams[ti]["items"], streams[ti]["cyclic"], form)))
+            if j + 1 < ntr and rng.random() < 0.5:
+                ops.append(["tick", rng.randint(1, 2 * min(tpb, 50) + 1)])
+        ops.append(["tick", ticks_for(rng, avg, tpb, 6, 30)])
+        f = {"tpb": tpb, "streams": streams, "ops": ops, "tolerant": tolerant, "fail": None}
+        dry = simulate_f(f)
+        if dry["total_calls"] < 4:
+            continue
+        fail = None
+        if not pattern_fault or rng.random() < 0.3:
+            fail = rng.randint(0, max(0, (dry["total_calls"] * 2) // 3))
+        f["fail"] = fail
+        sim = simulate_f(f)
+        second = None
+        if tolerant and sim["fault_ticks"] and rng.random() < 0.4:
+            tb = sim["fault_ticks"][0] + rng.randint(1, 20)
+            if tb < len(sim["cum_calls"]) - 2:
+                second = sim["cum_calls"][tb - 1] + rng.randint(0, 6)
+                f["ops"] = ops = split_ticks_at(ops, tb, ["set_fail", second])
+                sim = simulate_f(f)
+        if not sim["fault_ticks"] and _attempt < 150:
+            continue
+        exc = rng.choice(FAULT_EXC[:4]) if rng.random() < 0.55 else rng.choice(FAULT_EXC[4:])
+        sc = {"tpb": tpb, "config": {"ignore": tolerant, "dev_fail": fail, "dev_fail_exc": exc}, "callbacks": callbacks, "ops": ops,
+              "meta": {"kind": "fault", "tpbs": [tpb], "tolerant": tolerant, "tracks": ntr, "exception": exc, "dev_fail": fail,
+                       "second_fault": second, "pattern_fault": pattern_fault, "faults_at_ticks": sim["fault_ticks"],
+                       "removed_tracks": sim["dead"], "callbacks_raising": sum(1 for c in callbacks if c["raise"] == "exc")}}
+        sc["_f"] = f
+        sc["_sim"] = sim
+        return sc
+    raise CheckError("gen_fault: no scenario in 200 attempts")
+
+
+def observed_f(sc, r):
+    """what each track was heard doing: (tick, label) per track (device calls carry the track's channel; callbacks their index)"""
+    sim = sc["_sim"]
+    owner = {}
+    for ti, st in enumerate(sc["_f"]["streams"]):
+        for it in st["items"]:
+            if it["k"] == "action":
+                owner[it["cb"]] = ti
+    out = {ti: [] for ti in range(len(sc["_f"]["streams"]))}
+    for i, calls, res, ids in r["obs"]:
+        t = sim["tick_of_idx"].get(i)
+        for c in calls:
+            if c[0] == "on":
+                out[c[3]].append((t, ["on", c[1]]))
+            elif c[0] == "ctl":
+                out[c[3]].append((t, ["ctl", c[1], c[2]]))
+            elif c[0] == "pgm":
+                out[c[2]].append((t, ["pgm", c[1]]))
+            elif c[0] == "cb":
+                out[owner[c[1]]].append((t, ["cb", c[1]]))
+    return out
+
+
+def judge_f(sim, got, r):
+    horizon = sim["raised_at"]
+    for ti, exp in sim["exp"].items():
+        g = got.get(ti, [])
+        if horizon is not None:
+            g = [x for x in g if x[0] is not None and x[0] <= horizon]
+        if g != exp:
+            for j, (a, b) in enumerate(zip(g + [None] * len(exp), exp + [None] * len(g))):
+                if a != b:
+                    return "track %d, event %d: performed (tick, what) = %r, exact onset (tick, what) = %r" % (ti, j, a, b)
+    if horizon is None:
+        idx, now, tts = r["times"][-1]
+        if abs(now - float(sim["T"])) > 1e-9:
+            return "Timeline.current_time = %r beats at the end, exact sum of the tick durations = %s" % (now, sim["T"])
+        for ti, want in sim["clock"].items():
+            if ti in r["final_ids"] and abs(tts[ti] - float(want)) > 1e-9:
+                return ("track %d is still scheduled and Track.current_time = %r beats, Timeline.current_time - start = %s = %r "
+                        "(its clock has not advanced once per tick)" % (ti, tts[ti], want, float(want)))
+    return None
+
+
+def oracle_f(sc, r):
+    sim = sc["_sim"]
+    got = observed_f(sc, r)
+    d1 = judge_f(sim, got, r)
+    if d1 is None:
+        return True, ""
+    if not sc["_f"]["tolerant"] or not sim["fault_ticks"]:
+        return False, d1
+    import itertools
+    best = None
+    for bits in itertools.product([True, False], repeat=3):
+        if not any(bits):
+            continue
+        world = simulate_f(sc["_f"], keep=bits)
+        d2 = judge_f(world, got, r)
+        if d2 is None:
+            return True, ""
+        # which world is the implementation in?  a faulted track that was heard again after its fault has been kept
+        heard = [ti for ti in world["faulted"] if any(x[0] is not None and x[0] > world["fault_ticks"][0] for x in got.get(ti, []))]
+        if best is None and heard and all(ti in world["faulted"] and ti not in world["dead"] for ti in heard):
+            best = d2
+    return False, ("(the track whose tick raised stays scheduled) " + best) if best else d1
+
+
 def strip(sc):
-    return {k: v for k, v in sc.items() if k not in ("_o", "_w", "_sim")}
+    return {k: v for k, v in sc.items() if k not in ("_o", "_w", "_sim", "_f")}
 
 
 def check(run):
     rng = run.rng
-    n = 1200 if run.tier == "quick" else 12000
-    scs = [gen_basic(rng, run.tier) for _ in range(n)]
+    n = 1000 if run.tier == "quick" else 12000
+    scs = [gen_basic(rng, run.tier) for _ in range(n)] + [gen_basic(rng, run.tier, tie=True) for _ in range(n // 7)]
     longs = [(24, 1200000), (480, 1200000)] if run.tier == "quick" else \
             [(t, 5000000) for t in (24, 48, 96, 100, 480, 960, 1000, 1920)]
     scs += [gen_long(rng, t, nt) for t, nt in longs]
@@ -682,6 +979,9 @@ def check(run):
     for i, (sc, fsc, r) in enumerate(zip(scs, fin, results)):
         run.count()
         run.dist("tpb.%d" % sc["tpb"]); run.dist("kind." + sc["meta"]["kind"])
+        if sc["tpb"] % 512 == 0:
+            run.dist("tpb.multiple-of-512")
+            if all(d == F(1, sc["tpb"]) for d in sc["_o"]["durs"]): run.dist("tpb.multiple-of-512.one-event-per-tick")
         if sc["_o"]["nudge"]: run.dist("nudge")
         if sc["_o"].get("muted"): run.dist("mute-unmute")
         if sc["meta"].get("companion"): run.dist("companion-track." + sc["meta"]["companion"])
@@ -714,14 +1014,15 @@ def check(run):
         S.report_disagreement(run, fin[i], results[i], "correspondence", "Track.tick", {"meta": scs[i]["meta"]})
     run.cov["rule"] = ("one case = one history (ticks; schedule(q, d); ticks [; nudge; ticks]) of a track with a cycle of 1-6 durations "
                        "(on/off grid) at one of 9 resolutions, or a > 10^6-tick run, or a widened history (resolution re-configured once or twice between "
-                       "ticks; events nudging their own track from an action / track callback / timeline callback); distinct by scenario text; "
+                       "ticks; events nudging their own track from an action / track callback / timeline callback; 1-3 tracks with a device / pattern / "
+                       "callback fault, tolerant or not); distinct by scenario text; "
                        "non-trivial = at least two events performed")
     run.cov["long_runs"] = [{"tpb": t, "ticks": nt} for t, nt in longs]
 
 
 def replay(run, doc):
     fsc = doc["scenario"]
-    widened = doc.get("meta", {}).get("kind") in ("retick", "self-nudge") or "self_nudge" in fsc or any(o[0] in ("set_tpb", "probe") for o in fsc["ops"])
+    widened = doc.get("meta", {}).get("kind") in ("retick", "self-nudge", "fault") or "self_nudge" in fsc or any(o[0] in ("set_tpb", "probe", "set_fail") for o in fsc["ops"])
     if widened:
         r = run_impl_w(run, [fsc], shards=1)[0]
         bad = [0] if "driver_error" in r or not S.obs_well_typed(r["obs"]) else run.coq_failing(HEADER_W, [agrees_term_w(fsc, r["obs"])])
